@@ -656,10 +656,14 @@ def parse_template(text):
                     elif kw == 'ret':
                         d.ret = arg.strip()
                     elif kw == 'cut':
+                        mf = re.match(r'^from\s+"((?:[^"\\]|\\.)*)"\s*$', arg.strip())
                         mm = re.match(r'^before\s+"((?:[^"\\]|\\.)*)"\s+return\s+"((?:[^"\\]|\\.)*)"\s*$', arg.strip())
-                        if not mm:
+                        if mf:
+                            d.cut_from = unesc(mf.group(1))
+                        elif not mm:
                             raise LiftError("template line %d: bad cut directive" % start_line)
-                        d.cut = (unesc(mm.group(1)), unesc(mm.group(2)))
+                        else:
+                            d.cut = (unesc(mm.group(1)), unesc(mm.group(2)))
                     elif kw == 'rebind':
                         a_, b_ = arg.split()
                         d.rebinds.append((a_, b_))
@@ -787,6 +791,28 @@ def lift_one(d, repo, canary=False, rename_suffix=None):
     # L4 prefix lifting: keep the body up to (not including) the line that contains the anchor, then return the
     # given expression.  The lifted function is the *prefix* of the real one (e.g. the request construction that
     # precedes the channel set-up); what follows the cut is not verified text.
+    # L4b suffix lifting: keep the body FROM the line that contains the anchor to the end; the variables in scope at that
+    # point become parameters of the signature given by as=.  What precedes the cut is not verified text.
+    if getattr(d, 'cut_from', None):
+        anchor = d.cut_from
+        offs = find_code_text(body.s, body.k, anchor)
+        if len(offs) != 1:
+            raise LiftError("%s: cut-from anchor %r found %d times" % (info['name'], anchor, len(offs)))
+        ls = body.s.rfind('\n', 0, offs[0]) + 1
+        depth = 0
+        for j in range(1, ls):
+            if body.k[j] == CODE:
+                if body.s[j] in OPEN:
+                    depth += 1
+                elif body.s[j] in CLOSE:
+                    depth -= 1
+        if depth != 0:
+            raise LiftError("%s: cut-from anchor is not at the top level of the body" % info['name'])
+        info['cut_from'] = {'from': anchor, 'dropped_source_lines': body.s[:ls].count('\n')}
+        body.replace(1, ls, '\n')
+        if 'as' not in h:
+            raise LiftError("%s: cut from needs as=\"fn ...\"" % info['name'])
+        sig = h['as']
     if d.cut:
         anchor, retexpr = d.cut
         offs = find_code_text(body.s, body.k, anchor)
